@@ -15,12 +15,13 @@ PROP = dict(
             8: ("stored-provision-changed-off-boundary-or-differs-from-formula", "monitor"),
             9: ("hook-panics-differ-from-spec", "monitor"),
             14: ("genesis-provision-differs-from-formula", "monitor"),
-            # ledger part (property C05) and bookkeeping
-            1: ("supply-differs", "mismatch"),
-            2: ("fee-collector-differs", "mismatch"),
-            3: ("inflation-module-account-differs", "mismatch"),
-            4: ("distribution-account-differs", "mismatch"),
-            5: ("community-pool-differs", "mismatch"),
+            # ledger part: belongs to property C05 (which shares the suite); each step is replayed from the implementation's
+            # observed state, so a ledger difference cannot cascade into the schedule part and is C05's to report
+            1: ("supply-differs", "ignore"),
+            2: ("fee-collector-differs", "ignore"),
+            3: ("inflation-module-account-differs", "ignore"),
+            4: ("distribution-account-differs", "ignore"),
+            5: ("community-pool-differs", "ignore"),
             10: ("params-or-static-state-differ", "mismatch"),
             15: ("bonded-ratio-differs-from-truncated-quotient", "mismatch"),
         }
